@@ -15,8 +15,8 @@
                         NextAddresses, DeleteKeystore, UpdateManagedKeystores       → phases of the ops
     keystore/addrmgr.go nextAddresses (index read from the BUCKET), updateManagedAddress
                         (cache written BEFORE the re-read of the child numbers)     → `opNewAddr`
-    ntfnshandler.go     NewNtfnsHandler (bestBlock := synced-to), Start (fast-forward, catch-up,
-                        initTaskChan), processConnectedBlock (bestBlock only on success),
+    ntfnshandler.go     NewNtfnsHandler (bestBlock := synced-to), Start (resync, fast-forward,
+                        catch-up, initTaskChan), processConnectedBlock (bestBlock only on success),
                         filterTx unmined path, OnRemoveWallet, asyncRemove (one phase), worker → `bootVol`, `start`, `opBlock`, `recvTx`, …
   A storage fault at call index j of an operation aborts the enclosing Update: the batch is dropped
   (C11's guarantee, taken as the key/value layer's contract), volatile effects made before the
@@ -337,19 +337,39 @@ def fastForward (env : Env) (n : Nat) (limit : Nat) : Nat → Nat → PStore →
         if r.ok then fastForward env n limit fuel (cur + 1) r.P r.V (k + r.commits) else (⟨false, r.P, r.V, k⟩, cur)
     else (⟨true, P, V, k⟩, cur)
 
-/-- NtfnsHandler.Start: fast-forward, catch-up, initTaskChan -/
-def start (env : Env) (n : Nat) (P : PStore) (V : PVol) : BootRes :=
+/-- Start, first step: the block the wallet is synced to may have left the node's chain while the
+    wallet was down (or its replacement was announced to a process that died). When the node's block at
+    the highest common height is not that block, it is handed to the follower, which takes the
+    reorganisation path and rolls the wallet back onto the node's chain. -/
+def resync (env : Env) (n : Nat) (P : PStore) (V : PVol) : BootRes :=
+  if P.led.syncedTo = 0 then ⟨true, P, V, 0⟩ else
+  let at_ := min P.led.syncedTo env.node.tipHeight
+  match env.node.blockAt at_ with
+  | none => ⟨false, P, V, 0⟩
+  | some blk =>
+    if at_ < P.led.syncedTo ∨ blk.id ≠ V.led.best.hash then
+      let r := (opBlock env n blk).run none P V
+      ⟨r.ok, r.P, r.V, r.commits⟩
+    else ⟨true, P, V, 0⟩
+
+/-- Start after the resync step: fast-forward, catch-up, initTaskChan (`k0` = commits so far) -/
+def startCore (env : Env) (n : Nat) (P : PStore) (V : PVol) (k0 : Nat) : BootRes :=
   let syncH := P.led.syncedTo
   let indexH := env.node.tipHeight
   let hasReady := !(readyWallets P.led (walletsOf V.keys)).isEmpty
   let (r1, cur) :=
     if !hasReady && indexH > Gen.Updates.ffGap then
-      fastForward env n (indexH - Gen.Updates.ffGap) (indexH + 1) (syncH + 1) P V 0
-    else (⟨true, P, V, 0⟩, syncH + 1)
+      fastForward env n (indexH - Gen.Updates.ffGap) (indexH + 1) (syncH + 1) P V k0
+    else (⟨true, P, V, k0⟩, syncH + 1)
   if !r1.ok then r1 else
   let r2 := catchUp env n (indexH + 1) cur r1.P r1.V r1.commits
   if !r2.ok then r2 else
   { r2 with V := { r2.V with tasks := requeue r2.P } }
+
+/-- NtfnsHandler.Start: resync, fast-forward, catch-up, initTaskChan -/
+def start (env : Env) (n : Nat) (P : PStore) (V : PVol) : BootRes :=
+  let r0 := resync env n P V
+  if !r0.ok then r0 else startCore env n r0.P r0.V r0.commits
 
 /-- a process crash keeps the store and nothing else; the restarted process runs NewWalletManager
     (one Update that changes nothing once the buckets exist) and Start -/
